@@ -625,6 +625,11 @@ func (c *client) processWorkDone(
 	doneMessage WorkDoneMessage,
 ) ExecutionResult {
 	c.logger.Debugf("Step with run ID '%s' completed with output ID '%s'.", runID, doneMessage.OutputID)
+	if doneMessage.OutputID == "" {
+		// Every result names the output it belongs to. A payload without one is not a result (a damaged
+		// message that still decodes, such as a map cut short, comes out like this).
+		return NewErrorExecutionResult(fmt.Errorf("work done message for run ID '%s' has no output ID", runID))
+	}
 
 	// Print debug logs from the step as debug.
 	debugLogs := strings.Split(doneMessage.DebugLogs, "\n")
